@@ -6,7 +6,8 @@ namespace Driver.C09
 open IdModel.Doc IdModel.Store
 
 def parseMask (t : String) : Option Faults :=
-  match t.toList with
+  -- an optional ninth character selects the KIND of error the failing calls return; the model's outcome does not depend on it
+  match t.toList.take 8 with
   | [a, b, c, d, e, x, y, z] =>
     -- the last three (exists, sign, insert) name calls the modelled operations do not make
     let bit (ch : Char) : Option Bool := if ch == '1' then some true else if ch == '0' then some false else none
